@@ -43,7 +43,7 @@ Print Assumptions C19_dial_and_send_closed.
 (* the behaviour before the repairs (documentation): EHLO and HELO answered 550 -> error, connection left open;
    all replies fine but QUIT answered 500 -> error, connection left open *)
 Definition cfg_plain (fx : bool) : config :=
-  mkCfg NoTLS false Gen.smtp_auth_noauth None (bs "mail.verif.test") false fx fx fx true.
+  mkCfg NoTLS false Gen.smtp_auth_noauth None (bs "mail.verif.test") false fx fx fx true false.
 
 Example C19_before_fix_refuted :
   exists s, let (r, w') := run (dial 8 (cfg_plain false)) (world0 s) in
